@@ -109,7 +109,11 @@ fn proof_of(v: &Value) -> ProofOfPayment {
     for q in v.as_array().unwrap() {
         let quote = PaymentQuote {
             content: XorName(arr32(&q["content"])),
-            timestamp: UNIX_EPOCH + Duration::new(q["ts"]["s"].as_u64().unwrap(), q["ts"]["n"].as_u64().unwrap() as u32),
+            timestamp: match q["ts"].get("before_epoch") {
+                // a SystemTime serde refuses to serialise ("SystemTime must be later than UNIX_EPOCH")
+                Some(b) => UNIX_EPOCH - Duration::from_secs(b.as_u64().unwrap()),
+                None => UNIX_EPOCH + Duration::new(q["ts"]["s"].as_u64().unwrap(), q["ts"]["n"].as_u64().unwrap() as u32),
+            },
             quoting_metrics: metrics_of(&q["m"]),
             rewards_address: RewardsAddress::from_slice(&hexv(&q["addr"])),
             pub_key: hexv(&q["pk"]),
@@ -255,6 +259,46 @@ fn op_record(case: &Value) -> Value {
         RecordKind::Register => roundtrip(&register_of(v), kind, json!({})),
         RecordKind::RegisterWithPayment => roundtrip(&(proof_of(&case["proof"]), register_of(v)), kind, json!({})),
     }
+}
+
+// ---------------------------------------------------------------- sequences of encodings on one thread
+/// one try_serialize_record call: (bytes or the error text, serde tree of the value if it has one)
+fn encode_step(step: &Value) -> (Result<Vec<u8>, String>, Option<Value>) {
+    fn go<T: Serialize>(x: &T, kind: RecordKind) -> (Result<Vec<u8>, String>, Option<Value>) {
+        (try_serialize_record(x, kind).map(|b| b.to_vec()).map_err(|e| format!("{e:?}")), rec::tree(x).ok())
+    }
+    let kind = kind_of(step["kind"].as_str().unwrap());
+    let v = &step["v"];
+    match kind {
+        RecordKind::Chunk => go(&chunk_of(v), kind),
+        RecordKind::ChunkWithPayment => go(&(proof_of(&step["proof"]), chunk_of(v)), kind),
+        RecordKind::Scratchpad => go(&scratchpad_of(v), kind),
+        RecordKind::ScratchpadWithPayment => go(&(proof_of(&step["proof"]), scratchpad_of(v)), kind),
+        RecordKind::Transaction => go(&v.as_array().unwrap().iter().map(transaction_of).collect::<Vec<Transaction>>(), kind),
+        RecordKind::TransactionWithPayment => go(&(proof_of(&step["proof"]), transaction_of(v)), kind),
+        RecordKind::Register => go(&register_of(v), kind),
+        RecordKind::RegisterWithPayment => go(&(proof_of(&step["proof"]), register_of(v)), kind),
+    }
+}
+
+/// `encseq`: the steps are encoded one after the other on THIS thread (failing encodings included);
+/// every step is also encoded on a fresh thread; encoding must be a function of the value alone
+fn op_encseq(case: &Value) -> Value {
+    let mut out = vec![];
+    for step in case["steps"].as_array().unwrap() {
+        let (here, tree) = encode_step(step);
+        let st = step.clone();
+        let fresh = std::thread::spawn(move || encode_step(&st).0).join().unwrap_or_else(|_| Err("panic".into()));
+        let header = here.as_ref().ok().and_then(|b| RecordHeader::from_record(&record_of(b.clone())).ok()).map(|h| kind_name(h.kind));
+        out.push(json!({
+            "ok": here.is_ok(), "err": here.as_ref().err(),
+            "bytes": here.as_ref().ok().map(hex::encode),
+            "fresh_ok": fresh.is_ok(), "fresh_same": here.as_ref().ok() == fresh.as_ref().ok() && here.is_ok() == fresh.is_ok(),
+            "fresh_bytes": if here.as_ref().ok() != fresh.as_ref().ok() { fresh.as_ref().ok().map(hex::encode) } else { None },
+            "header": header, "tree": if here.is_ok() { tree } else { None },
+        }));
+    }
+    json!({"steps": out})
 }
 
 // ---------------------------------------------------------------- decoding arbitrary bytes
@@ -575,6 +619,7 @@ fn op_msg_decode(case: &Value) -> Value {
 
 fn run(case: &Value) -> Value {
     match case["op"].as_str().unwrap() {
+        "encseq" => op_encseq(case),
         "msg" => op_msg(case),
         "msg_decode" => op_msg_decode(case),
         "record" => op_record(case),
